@@ -110,6 +110,10 @@ def streams(tier, rng, P, only=None, cases=None):
         for j, (d, c_, exp) in enumerate([("Tempo=2*30 /* a\nb */ +1 z c", "Tempo=2*30 /* a\nb */ +1 c", [(1, "z")]), ("INT A=2*3 /* a\n\nb */ - 1; ZZZ d", "INT A=2*3 /* a\n\nb */ - 1; d", [(2, "ZZZ")]),
                                           ("y7,1+2*3 /* a\nb */ +4; z", "y7,1+2*3 /* a\nb */ +4;", [(1, "z")]), ("INT B=(1+2*3 /* a\nb */ >2); z c", "INT B=(1+2*3 /* a\nb */ >2); c", [(1, "z")])]):
             cs.append(dict(req="compile2 %s %s" % (hx(d), hx(c_)), src=d, show=repr(d), exp=exp, key="cmt%d" % j))
+        # offending text inside a macro / string variable: the entry carries the line where the text is used, with or without arguments
+        for j, (d, c_, exp) in enumerate([("\n\n#A={c ! d}\n#A", "\n\n#A={c d}\n#A", [(3, "!")]), ("STR Mcr={c ! d}\n\nr\nMcr e", "STR Mcr={c d}\n\nr\nMcr e", [(3, "!")]),
+                                          ("#A={c #?1 ! d}\n\n#A({e})", "#A={c #?1 d}\n\n#A({e})", [(2, "!")]), ("\n#B={ZZZ c}\n\n\nr #B r\n#B", "\n#B={c}\n\n\nr #B r\n#B", [(4, "ZZZ"), (5, "ZZZ")])]):
+            cs.append(dict(req="compile2 %s %s" % (hx(d), hx(c_)), src=d, show=repr(d), exp=exp, key="mac%d" % j))
         for j, (d, c_, exp) in enumerate([("c !d e", "c d e", [(0, "!")]), ("\n\nc\n!", "\n\nc\n", [(3, "!")]), ("c\n\n\n!", "c\n\n\n", [(3, "!")]), ("c\n\n\nZZZ d", "c\n\n\n d", [(3, "ZZZ")])]):
             cs.append(dict(req="compile2 %s %s" % (hx(d), hx(c_)), src=d, show=repr(d), exp=exp, key="fixed%d" % j))
         return cs
